@@ -171,11 +171,16 @@ inductive Op where
   | setMut (k : Bytes) (v : Bytes)
   /-- `g := Get(k)`, the caller flips `g[0]`; observe `Get(k)`; finally restore the old value -/
   | getMut (k : Bytes)
+  /-- `b.Set(kbuf, vbuf)`, the caller then flips `kbuf[0]` and `vbuf[0]`, `b.Write()`; observe
+      `Get(k)` and `Get(k')` (`k'` = `k` with the first byte flipped); finally `Delete(k')` and
+      `Set(k, copy v)` -/
+  | batchMut (k : Bytes) (v : Bytes)
   deriving Repr, DecidableEq
 
 inductive Out where
   | ok
   | val (v : Option Bytes)
+  | pair (a b : Option Bytes)
   | seq (cur : Option (Bytes × Option Bytes)) (rest : List (Bytes × Option Bytes))
   deriving Repr, DecidableEq
 
@@ -196,6 +201,9 @@ def Spec.step (s : Spec) : Op → Spec × Out
     (s, .seq (r.1.map liftKV) (r.2.map liftKV))
   | .setMut k v => (Spec.set s k v, .val (some v))          -- the store holds its own copy
   | .getMut k => (s, .val (Spec.get s k))                    -- the result is a copy
+  | .batchMut k v =>                                         -- the batch copied key and value at `Set`
+    let s1 := Spec.set s k v
+    (Spec.set (Spec.delete s1 (flip0 k)) k v, .pair (Spec.get s1 k) (Spec.get s1 (flip0 k)))
 
 def Mem.step (m : Mem) : Op → Mem × Out
   | .get k => (m, .val (Mem.get m k))
@@ -208,6 +216,9 @@ def Mem.step (m : Mem) : Op → Mem × Out
     (m, .seq r.1 r.2)
   | .setMut k v => (Mem.set m k (some v), .val (some (flip0 v)))  -- the map holds the caller's slice
   | .getMut k => (m, .val ((Mem.get m k).map flip0))              -- the result IS the stored slice
+  | .batchMut k v =>                                              -- memDBBatch keeps both slices until `Write`
+    let m1 := Mem.set m (flip0 k) (some (flip0 v))
+    (Mem.set (Mem.delete m1 (flip0 k)) k (some v), .pair (Mem.get m1 k) (Mem.get m1 (flip0 k)))
 
 def Spec.run (s : Spec) : List Op → List Out
   | [] => []
